@@ -2062,6 +2062,19 @@ unit(name="SrcIit", props="property C07", file="src/data_structures/interval_tre
                      locals={"last_i": "usize", "k": "usize", "x": "usize", "i0": "usize", "step": "usize"},
                      # `(1 << k) <= n` fails after at most 64 rounds (a shift by 64 would panic first)
                      fuel=["65"], theorem="RbV.Thm.GenSrcIit.indexCore_eq_model"),
+                dict(name="ArrayBackedIntervalTree::index", lean="index", header="pub fn index(&mut self)",
+                     self_fields=[("entries", "Vec<InternalEntry>"), ("max_level", "usize"), ("indexed", "bool")],
+                     params=[], ret=None,
+                     # the sort call is the abstract function `sortByStart`; its contract in the theorems is "a permutation
+                     # sorted by start" — met by a stable or unstable sort by `start` or by `(start, end)` (seeded change
+                     # C07-H2), so all of these texts are read as `sortByStart`; `index_core` is the translated sibling
+                     abs_methods={"self.entries": dict(lean="sortByStart", ty="Vec<InternalEntry>", alts=[
+                         ("sort_by_key", "|e| e.interval.start"), ("sort_unstable_by_key", "|e| e.interval.start"),
+                         ("sort_by_key", "|e| (e.interval.start, e.interval.end)"),
+                         ("sort_unstable_by_key", "|e| (e.interval.start, e.interval.end)")])},
+                     self_calls={"index_core": dict(lean="indexCore", self_args=["self.entries", "self.max_level"], args=[],
+                                                    writes=["self.entries", "self.max_level"], ret=None, abs=["max3"])},
+                     theorem="RbV.Thm.GenSrcIit.index_eq_model"),
                 dict(name="ArrayBackedIntervalTree::find_into", lean="findInto",
                      header="pub fn find_into<'b, 'a: 'b, I: Into<Interval<N>>>(&'a self, interval: I, "
                             "results: &'b mut Vec<Entry<'a, N, D>>,)",
